@@ -285,7 +285,7 @@ ForbiddenNeverStoredS == Forbid \cap Stored = {}
 OnlyLongestRequested  == \A p \in Peers : \A k \in 1 .. Len(nq[p]) :
                             \A j \in 1 .. Len(nq[p][k].loc) : nq[p][k].loc[j] \in Longest \/ nq[p][k].loc[j] \in Cps
 NoRequestToUnknown    == \A p \in Peers : nq[p] # <<>> => (pk[p].known \/ nd[p].conn)
-BannedStayOut         == \A p \in ban : ~pk[p].known \/ nd[p].conn
+BannedStayOut         == \A p \in ban : ~nd[p].conn          \* a banned host has no live connection: it is cut when banned and refused afterwards
 StoreValid            == StructValid
 
 \* best chain offered by the connected honest nodes
